@@ -463,8 +463,9 @@ class SummaryExtractor(nodes.NodeVisitor):
                     char_count += len(s)
 
             else:
-                summary_pieces.append(set_node_attributes(child.deepcopy(), document=summary_doc))
-                char_count += len(''.join(node2stan.gettext(child)))
+                for piece in self._summary_pieces(child.deepcopy()):
+                    summary_pieces.append(set_node_attributes(piece, document=summary_doc))
+                    char_count += len(''.join(node2stan.gettext(piece)))
             
         if char_count > self.maxchars:
             if not summary_pieces[-1].astext().endswith('.'):
@@ -477,6 +478,23 @@ class SummaryExtractor(nodes.NodeVisitor):
 
         from pydoctor.epydoc.markup.restructuredtext import ParsedRstDocstring
         self.summary = ParsedRstDocstring(summary_doc, fields=[])
+
+    @classmethod
+    def _summary_pieces(cls, node: nodes.Node) -> List[nodes.Node]:
+        """
+        The summary is presented on other pages than the docstring, where the targets 
+        of the same docstring do not exist: drop the references to footnotes and citations 
+        and replace the internal hyperlink references by their text.
+        """
+        if isinstance(node, (nodes.footnote_reference, nodes.citation_reference)):
+            return []
+        if isinstance(node, nodes.reference) and 'refuri' not in node.attributes:
+            return [p for child in list(node.children) for p in cls._summary_pieces(child)]
+        if isinstance(node, nodes.Element):
+            node.children = [p for child in list(node.children) for p in cls._summary_pieces(child)]
+            for p in node.children:
+                p.parent = node
+        return [node]
 
     def visit_field(self, node: nodes.Node) -> None:
         raise nodes.SkipNode()
